@@ -245,10 +245,16 @@ class DefaultServer(asyncssh.SSHServer):
         return False        # no auth required
 
 
+async def make_server_options(server_factory: Any = DefaultServer, **server_opts: Any) -> Any:
+    """the options object of one listener: shared by every connection that listener accepts"""
+    server_opts.setdefault('server_host_keys', [host_key()])
+    return await SSHServerConnectionOptions.construct(server_factory=server_factory, **server_opts)
+
+
 async def make_server_conn(loop: asyncio.AbstractEventLoop, server_factory: Any = DefaultServer,
                            **server_opts: Any) -> SSHServerConnection:
-    server_opts.setdefault('server_host_keys', [host_key()])
-    sopts = await SSHServerConnectionOptions.construct(server_factory=server_factory, **server_opts)
+    shared = server_opts.pop('shared_options', None)
+    sopts = shared if shared is not None else await make_server_options(server_factory, **server_opts)
     return SSHServerConnection(loop, sopts, None, None)
 
 
